@@ -2,18 +2,14 @@ package main
 
 import (
 	"math/big"
-
-	"golang.org/x/tools/go/ssa"
 )
 
 type bigIntT = big.Int
 
 var bigOne = big.NewInt(1)
 
-var _ = ssa.NaiveForm
-
-func tryReplay(opt Options, ob *Obligation, inputs map[string]string) (outcome, log, src string) {
+func autoReplay(opt Options, ob *Obligation, inputs map[string]string) (outcome, log, src string) {
 	return "not-replayable", "", ""
 }
 
-func RunReplay(args []string) int { return 0 }
+func rerunGenerated(opt Options, rf replayFile) (string, string) { return "not-replayable", "" }
